@@ -31,4 +31,5 @@ def run(prog: Program, col: Collector, tier: str, refs: Optional[Refs] = None, c
     algebra.r_unit_elimination(prog, col, refs, cat, "R08.5")
     algebra.r_pushdown(prog, col, refs, cat, "R08.6")
     algebra.r_same_op(prog, col, refs, cat, "R08.7")
+    algebra.r_scope_extrusion(prog, col, refs, cat, "R08.8")
     return col
